@@ -24,6 +24,8 @@ func init() {
 			c.ruleChildDeletedMarker()
 			c.ruleChildKeysMerge()
 			c.ruleChildRecreate()
+			c.ruleSortedKeys()
+			c.min("R-SORTEDKEYS", 2)
 			c.min("R-OVERLAY/prefixkeys", 2)
 			c.min("R-OVERLAY/O1", 9)
 			c.min("R-OVERLAY/O2", 4)
